@@ -3,7 +3,12 @@ use crate::{base::SentinelRule, logging, utils};
 use crate::{Error, Result};
 use lazy_static::lazy_static;
 use std::collections::{HashMap, HashSet};
+#[cfg(not(flea1lt_sentinel_rust_verif))]
 use std::sync::{Arc, Mutex, RwLock};
+#[cfg(flea1lt_sentinel_rust_verif)]
+use std::sync::{Arc};
+#[cfg(flea1lt_sentinel_rust_verif)]
+use crate::verif::sync::{Mutex, RwLock};
 
 pub type RuleMap = HashMap<String, HashSet<Arc<Rule>>>;
 
